@@ -45,13 +45,18 @@ def actionOf (s : String) : Action :=
       fin := finishOf (",".intercalate fin), zeroRead := numAfter zr 2 == 1 }
   | _ => ⟨0, 0, 1, .drop, false⟩
 
-def scriptOf (s : String) : Script :=
-  let acts := (listS '|' s).map actionOf
+/-- the script as a function of the request number; the parsed actions are an argument (an array
+    computed once by the caller): a closure over a `let` would be re-evaluated at every call -/
+def scriptOfActs (acts : Array Action) : Script :=
   fun i => match acts[i]? with
     | some a => a
-    | none => match acts.getLast? with
+    | none => match acts.back? with
       | some a => a
       | none => ⟨0, 0, 1, .drop, false⟩
+
+def actsOf (s : String) : Array Action := ((listS '|' s).map actionOf).toArray
+
+def scriptOf (s : String) : Script := scriptOfActs (actsOf s)
 
 def b1 (s : String) : Bool := s == "1"
 
@@ -82,7 +87,8 @@ def run (kv : KV) : String :=
   let mode := get kv "mode"
   let halfClose := mode != "open"
   let unix := get kv "unix" == "1"
-  let script := scriptOf (get kv "script")
+  let acts := actsOf (get kv "script")
+  let script := scriptOfActs acts
   let fin := if mode == "open" then EndState.open else if mode == "reset" then EndState.reset else EndState.eof
   -- after a full close or a reset the server's writes fail: what reaches the client is not compared
   let wireObservable := mode == "halfclose" || mode == "open"
